@@ -3,7 +3,7 @@
 import json, os
 V = os.path.dirname(os.path.dirname(os.path.abspath(__file__)))
 T_SEQ = "Coq proof over Gallina model + differential correspondence (extracted model vs implementation)"
-T_TIE = "Coq proof over Gallina model + translator tie (Gen = Model re-proved) + differential correspondence"
+T_TIE = "Coq proof over Gallina model + translator tie (model regenerated from the current source, Gen = Model and the property theorems about Gen re-proved on every run) + differential correspondence"
 N_SEQ = "Coq kernel; extraction + OCaml driver; correspondence harness; sequential model (one caller thread, n_threads=1); CPython datetime modelled not verified"
 CLAIMED = {
  "C01": ("3.1-3.3, 5 (C01)",
@@ -23,28 +23,28 @@ CLAIMED = {
    N_SEQ + "; float rounding of the built-ins modelled not verified; set iteration order is read from the implementation", T_TIE),
  "C06": ("5 (C06)",
    "Props/C06.v: invariant proved by induction over ALL operation histories (scheduling calls of six kinds, deletions, queries, normal and forced polls, failing callbacks, re-entrant callbacks): attempts <= max_attempts for every job object ever created, every registered job has attempts left (so the call performing the n-th invocation removes it), ids that left the set never reappear, once() is max_attempts=1. Tied by the limits/general correspondence streams.",
-   N_SEQ + "; asyncio front end: C17", T_SEQ),
+   N_SEQ + "; asyncio front end: C17; translated: BaseJob (__init__, _calc_next_exec, has_attempts_remaining, _exec) and JobTimer, the Scheduler classes are hand-modelled", T_TIE),
  "C07": ("5 (C07)",
    "Props/C07.v: in every reachable state a registered job's planned instant is <= stop (so every invocation belongs to a due time <= stop); rescheduling marks a job whose next due time exceeds stop and the same call removes it; a job whose first due time is past stop is never registered (scheduling calls and constructor); first due is after start; stop <= start is rejected with SchedulerError. Tied by the limits stream (stop on/±1us around occurrences, constructor-injected jobs).",
-   N_SEQ, T_SEQ),
+   N_SEQ + "; translated: BaseJob, JobTimer, job_util checks; the Scheduler classes are hand-modelled", T_TIE),
  "C08": ("5 (C08)",
    "Props/C08.v: without skip_missing n executions at arbitrary instants consume exactly the n oldest occurrences (none lost); with skip_missing the rescheduled timer is an occurrence, >= t, later than the one consumed, with no occurrence strictly between t and it (cyclic: exactly t+T). The job-level cyclic claim is proved in partial form and REFUTED for delay=False (known finding cyclic-skip-nodelay, replayed on the implementation on every run).",
    N_SEQ, T_TIE),
  "C09": ("5 (C09)",
    "Props/C09.v: a created batched job satisfies an invariant under which the successive due times are chained by 'next occurrence of the union of all entries' (ascending, no omission, no repetition) over any number of executions; one call invokes a job at most once; the duplicate check accepts a list iff its entries denote pairwise different recurring instants (minutely/hourly/daily via instant mod period, weekly via the first occurrence after 1970-01-01). Tied by re-translation of are_times_unique and the batch stream (1-5 entries with independent offsets).",
-   N_SEQ + "; are_weekday_times_unique is a model function (weekday_key) tied by correspondence only", T_TIE),
+   N_SEQ + "; typeguard's acceptance of the timing list is an oracle (sane_timing_types recognised by template)", T_TIE),
  "C10": ("5 (C10)",
    "Props/C10.v: for ANY outcome oracle and callback programs exec_jobs returns normally and keeps the state good; the whole batch is invoked; each raising invocation counts failure+attempt and emits exactly one error record; rescheduling/retiring never read the failure counter; failed <= attempts always. Tied by fault injection in the faults stream (six Exception subclasses, intermittent failures, user and default logger).",
-   N_SEQ + "; Python try/except and logging are modelled (events), asyncio front end in C17/C18", T_SEQ),
+   N_SEQ + "; Python try/except and logging are modelled (events; Job._exec of both front ends is translated with the callback's outcome as a parameter), asyncio front end in C17/C18", T_TIE),
  "C11": ("5 (C11)",
    "Props/C11.v: exact effect of every operation on the job set (schedule adds the fresh id iff the job can run; a rejected call changes nothing; delete_job removes or raises and changes nothing; delete_jobs removes exactly the selection and returns its size; queries change nothing), members are exactly the jobs that can still run, and an id that left the set never reappears (induction over histories). Tied by the registry stream (all six scheduling calls valid/invalid, deletes of registered/deleted/retired/foreign jobs, queries, polls; every returned set is cleared).",
-   N_SEQ + "; asyncio front end: C18", T_SEQ),
+   N_SEQ + "; asyncio front end: C18; translated: select_jobs_by_tag", T_TIE),
  "C12": ("5 (C12)",
    "Props/C12.v: tag_match is subset (any_tag false) / non-empty intersection (true); get_jobs returns and delete_jobs removes exactly the matching registered jobs, None/empty = all; tags given to once() are kept on every timing path. Tied by the registry stream with once() tags passed as set, frozenset, list, tuple, generator, dict keys and None.",
-   N_SEQ + "; Python set operators modelled by duplicate-free lists", T_SEQ),
+   N_SEQ + "; Python set operators modelled by duplicate-free lists; translated: select_jobs_by_tag", T_TIE),
  "C13": ("5 (C13)",
    "Props/C13.v: creation succeeds only with uniform awareness of every timing entry, start and stop; any mixed value is rejected by the call itself, always with SchedulerError (the model's datetime operations do return TypeError on mixing); the constructor rejects foreign-timezone jobs; no operation on a reachable state ever raises TypeError; offset invariance: same recurring instants + same reference instant give the same due instants at creation and after every rescheduling (with/without skip_missing). Tied by the awareness stream (random naive/aware assignments to scheduler, entries, start, stop, all calls and the constructor).",
-   N_SEQ + "; typeguard acceptance of timing types is an oracle", T_SEQ),
+   N_SEQ + "; typeguard acceptance of timing types is an oracle; translated: every check of BaseJob.__init__", T_TIE),
  "C20": ("3.7, 5 (C20)",
    "Props/C20.v: for ALL strings and widths >= 1 the abbreviation helper returns min(len,w) characters, leaves a fitting string unchanged and otherwise keeps w-1 characters plus the '#' marker; every job row is exactly as wide as the header row for arbitrary cell contents in all four table variants; the table is heading + true job count + header + dashes + exactly one row per job in ascending due-time order. Tied by re-translation of str_cutoff (Tie lemma) and by comparing str(scheduler), str(job) and str_cutoff of the real code with the extracted model over all callable kinds (def, lambda, builtin, bound/static/class method, partial, callable instance, class; asyncio variants), aliases, weights, attempt counts, timezone names and due distances, both front ends.",
    "Coq kernel; extraction + driver; translator; CPython's rendering of datetime/timedelta/float/tzname and callable attributes enters the model as strings (modelled not verified); 'never raises' for the callable kinds is exhaustive testing of a finite table", T_TIE),
